@@ -104,7 +104,7 @@ def extract(repo=REPO, config='default', target_dir=None):
         os.replace(tmp, out)
         # prune old fact files (keep the 12 newest)
         fs = sorted(glob.glob(os.path.join(CACHE, 'facts', '*.jsonl')), key=os.path.getmtime)
-        for old in fs[:-60]:
+        for old in fs[:-int(os.environ.get('VERIF_FACT_KEEP', '60'))]:
             for p in (old, old + '.pickle'):
                 try:
                     os.remove(p)
